@@ -163,18 +163,18 @@ func (r Raw) Digest() string {
 // Ledger is the typed view of assets + delegation state used by the ledger monitors. It is parsed
 // from raw store bytes (not through the keepers' iterators).
 type Ledger struct {
-	Staker      map[string]assetstypes.StakerAssetInfo   // stakerID/assetID
-	Operator    map[string]assetstypes.OperatorAssetInfo // operator/assetID
-	Asset       map[string]assetstypes.StakingAssetInfo  // assetID
-	Delegation  map[string]delegationtypes.DelegationAmounts // staker/asset/operator
-	StakerList  map[string][]string                      // operator/asset
-	Assoc       map[string]string                        // stakerID -> operator
+	Staker      map[string]assetstypes.StakerAssetInfo        // stakerID/assetID
+	Operator    map[string]assetstypes.OperatorAssetInfo      // operator/assetID
+	Asset       map[string]assetstypes.StakingAssetInfo       // assetID
+	Delegation  map[string]delegationtypes.DelegationAmounts  // staker/asset/operator
+	StakerList  map[string][]string                           // operator/asset
+	Assoc       map[string]string                             // stakerID -> operator
 	Undel       map[string]delegationtypes.UndelegationRecord // record key -> record
-	StakerIdx   map[string]string                        // staker/asset/nonce -> record key
-	PendingIdx  map[string]string                        // height/nonce -> record key
-	Hold        map[string]uint64                        // record key -> count
-	Escrow      sdkmath.Int                              // bank balance of delegated_pool
-	Bal         map[string]sdkmath.Int                   // bank balances (base denom) of watched accounts, by bech32
+	StakerIdx   map[string]string                             // staker/asset/nonce -> record key
+	PendingIdx  map[string]string                             // height/nonce -> record key
+	Hold        map[string]uint64                             // record key -> count
+	Escrow      sdkmath.Int                                   // bank balance of delegated_pool
+	Bal         map[string]sdkmath.Int                        // bank balances (base denom) of watched accounts, by bech32
 	ParseErrors []string
 }
 
